@@ -8,7 +8,7 @@ use crate::readers::{model_for, open, Front, ReaderSys, FRONTS};
 use serde_json::{json, Value};
 use std::io::Cursor;
 
-pub const RULE: &str = "for every file of the seek corpus (channels × depth × seek-table shape × declared/unknown length; 16-sample frames + short final frame; position-identifying PCM) and each seekable reader front-end, breadth-first exploration of ALL histories over the op alphabet {read(n), fill_buf, fill+consume(k), seek(Start/Current/End or sample)} to a fixpoint with exact-state de-duplication (key = source position, current sample, decoded frame, buffered remainder, consumed count, reference cursor); every transition is checked against a cursor over the reference PCM; distinct outcomes = (front, op kind, label)";
+pub const RULE: &str = "for every file of the seek corpus (channels × depth × seek-table shape × declared/unknown length; 16-sample frames + short final frame; position-identifying PCM; a subset again embedded behind 7 foreign bytes with the source positioned at the stream's start) and each seekable reader front-end, breadth-first exploration of ALL histories over the op alphabet {read(n), fill_buf, fill+consume(k), seek(Start/Current/End or sample)} to a fixpoint with exact-state de-duplication (key = source position, current sample, decoded frame, buffered remainder, consumed count, reference cursor); every transition is checked against a cursor over the reference PCM; distinct outcomes = (front, op kind, label)";
 pub const ASSUMPTIONS: &[&str] = &["argument values outside the op alphabet are not explored (the states they reach mostly are)", "behaviour of reads after a FAILED seek is unspecified by the property: only absence of panics is required until the next successful seek", "a byte-reader End-relative seek on a stream with undeclared total may fail (the end is unknowable without a full decode) but if it succeeds it must be exact"];
 pub fn bounds(quick: bool) -> Value {
     json!({"files": format!("channels {{1,2,3,8}} × depth {{8,12,16,24,32}} × 6 seek-table shapes × declared/unknown + (3ch,20bit), (5ch,4bit), (2ch,31bit), (7ch,1bit) × 3 shapes; {} full frames + 5-sample final", if quick { 2 } else { 3 }), "fixpoint": true})
@@ -104,10 +104,21 @@ pub fn files(quick: bool) -> Vec<(u8, u32, &'static str, bool, usize)> {
     v
 }
 
+/// the stream behind `prefix` foreign bytes, the source positioned at the start of the stream
+fn embedded(f: &TestFile, prefix: usize) -> Vec<u8> {
+    let mut data: Vec<u8> = (0..prefix).map(|i| 0xF8u8.wrapping_add(i as u8 * 29)).collect();
+    data.extend_from_slice(&f.bytes);
+    data
+}
+
 fn explore_one(f: &TestFile, front: Front, acc: &mut Acc, spec: &Value) {
     let refbytes = pcm_bytes(&f.pcm, f.sig.bps, front == Front::ByteBE);
     let ops = oplist(front, f);
-    let rd = match open(front, Cursor::new(&f.bytes[..]), true) {
+    let prefix = spec["prefix"].as_u64().unwrap_or(0) as usize;
+    let data = embedded(f, prefix);
+    let mut src = Cursor::new(&data[..]);
+    src.set_position(prefix as u64);
+    let rd = match open(front, src, true) {
         Ok(r) => r,
         Err(e) => {
             acc.violation(format!("C06|{front:?}|open"), format!("cannot open a valid file: {e}"), json!({"kind":"reader-history","file":spec,"front":format!("{front:?}"),"ops":[]}));
@@ -143,7 +154,7 @@ fn explore_one(f: &TestFile, front: Front, acc: &mut Acc, spec: &Value) {
         let opk = h.last().map(|o| o.split(':').next().unwrap_or("").to_string()).unwrap_or_default();
         acc.violation(
             format!("C06|{front:?}|{opk}|{clause}"),
-            format!("{front:?} on {}: after history {:?}: {clause}: {detail}", f.desc, h),
+            format!("{front:?} on {}{}: after history {:?}: {clause}: {detail}", f.desc, if prefix > 0 { format!(" embedded at offset {prefix}") } else { String::new() }, h),
             json!({"kind":"reader-history","file":spec,"front":format!("{front:?}"),"ops":h}),
         );
     }
@@ -158,6 +169,22 @@ pub fn run(ctx: &Ctx, acc: &mut Acc) {
             let f = seek_file(ch, bps, var, decl, nfull, 5);
             let spec = json!({"ch":ch,"bps":bps,"variant":var,"declared":decl,"nfull":nfull,"tail":5});
             explore_one(&f, front, acc, &spec);
+        }
+    }
+    // the same stream embedded behind 7 foreign bytes, the source handed over positioned at the stream's start:
+    // every seek is relative to where the stream began, not to offset 0 of the source
+    for (ch, bps) in [(1u8, 16u32), (2, 16), (2, 24)] {
+        for var in SEEK_VARIANTS {
+            for decl in [true, false] {
+                for front in FRONTS {
+                    if !ctx.mine() {
+                        continue;
+                    }
+                    let f = seek_file(ch, bps, var, decl, 2, 5);
+                    let spec = json!({"ch":ch,"bps":bps,"variant":var,"declared":decl,"nfull":2,"tail":5,"prefix":7});
+                    explore_one(&f, front, acc, &spec);
+                }
+            }
         }
     }
 }
@@ -180,7 +207,11 @@ pub fn replay(v: &Value) -> Option<(bool, String)> {
     let front = front_from(v["front"].as_str()?);
     let refbytes = pcm_bytes(&f.pcm, f.sig.bps, front == Front::ByteBE);
     let ops: Vec<String> = v["ops"].as_array()?.iter().map(|o| o.as_str().unwrap_or("").to_string()).collect();
-    let rd = match open(front, Cursor::new(&f.bytes[..]), true) {
+    let prefix = s["prefix"].as_u64().unwrap_or(0) as usize;
+    let data = embedded(&f, prefix);
+    let mut src = Cursor::new(&data[..]);
+    src.set_position(prefix as u64);
+    let rd = match open(front, src, true) {
         Ok(r) => r,
         Err(e) => return Some((true, e)),
     };
